@@ -31,6 +31,21 @@ Theorem C09_latch_all_return : forall sched count progs, (0 <= count)%Z ->
 Proof. exact latch_all_return. Qed.
 Print Assumptions C09_latch_all_return.
 
+(* Granularity of the lock-step tie: the latch's spinlock is held ACROSS model steps exactly by an
+   arrive_and_wait last arriver between its two steps (fetch_sub | first notify_one), and the
+   second step always frees it.  The lock-step harness schedules that critical section as one
+   entry (hook before the lock) and replays the two steps back to back. *)
+Theorem C09_latch_lock_owner : forall sched count progs, (0 <= count)%Z ->
+  let c := latch_run true sched count progs in
+  forall t, Latch.lk (fst c) = Some t <-> lpcs (snd c t) = LAwNotify.
+Proof. exact latch_lock_owner. Qed.
+Print Assumptions C09_latch_lock_owner.
+
+Theorem C09_latch_aw_section_releases : forall f t g l, lpcs l = LAwNotify ->
+  Latch.lk (fst (latch_tstep f ONorm t g l)) = None /\ lpcs (snd (latch_tstep f ONorm t g l)) <> LAwNotify.
+Proof. exact latch_aw_section_releases. Qed.
+Print Assumptions C09_latch_aw_section_releases.
+
 (* ------------------------------------------------------------------ barrier tree *)
 (* For every participant count E >= 1 and every interleaving of the ticket CASes: among the
    arrivals of one phase at most one returns true; whoever returns true did its last CAS when
@@ -136,6 +151,13 @@ Theorem C09_event_releases_all : forall sched progs,
 Proof. exact event_releases_all. Qed.
 Print Assumptions C09_event_releases_all.
 
+(* the event's spinlock is held across model steps exactly by a thread inside set()'s notify_all *)
+Theorem C09_event_lock_owner : forall sched progs,
+  let c := e_run sched progs in
+  forall t, elk (est (fst c)) = Some t <-> exists p, epcs (snd c t) = Some (ESN p).
+Proof. exact event_lock_owner. Qed.
+Print Assumptions C09_event_lock_owner.
+
 (* ------------------------------------------------------------------ call_once *)
 (* at most one successful run; a run begins only when every earlier run has ended, none of them
    successfully; at most one run is in progress *)
@@ -220,6 +242,15 @@ Example C09_event_example :
   let progs := fun t => match t with 0 => [EWait] | 1 => [EWait] | 2 => [ESet] | _ => [] end in
   let c := e_run (rr ENorm 3 12) progs in
   flag (est (fst c)) = true /\ length (elog (fst c)) = 3.
+Proof. vm_compute. repeat split. Qed.
+
+(* occurred() is one load: thread 3 reads false before the set and true after it; thread 0 waits
+   and is released by thread 2's set (thread 1's reset comes before the store of the set) *)
+Example C09_event_occurred_example :
+  let progs := fun t => match t with 0 => [EWait] | 1 => [EReset] | 2 => [ESet] | 3 => [EOcc; EOcc] | _ => [] end in
+  let c := e_run ([(3, ENorm)] ++ rr ENorm 3 12 ++ [(3, ENorm)]) progs in
+  elog (fst c) = [EOccurred 3 true; ESetDone 2; ERet 0 true; EOccurred 3 false] /\ flag (est (fst c)) = true /\
+  map (fun t => e_enabled (fst c) t (snd c t)) (seq 0 5) = [false; false; false; false; false].
 Proof. vm_compute. repeat split. Qed.
 
 (* call_once: thread 0's run throws, thread 1 retries and succeeds, thread 2 waits for it *)
